@@ -189,8 +189,10 @@ def run_blockservice(ctx, pid, reg_recs=None):
             o = sc["ops"][0]
             req = {tuple(c) for c in o["ks"]}
             loc = {tuple(b["c"]) for b in sc["pre"]}
-            if (req - loc) and any((tuple(b["c"]) not in req - loc) or not b["ok"] for b in o["script"]["dl"]):
-                ctx.nontrivial(sc)                      # a miss and at least one delivery that must not be handed on
+            if (req - loc) and (any((tuple(b["c"]) not in req - loc) or not b["ok"] for b in o["script"]["dl"])
+                                or (o["script"]["dl"] and o["script"].get("pf"))):
+                ctx.nontrivial(sc)     # a miss and at least one delivery that must not be handed on (unrequested, alias
+                                       # of a requested CID, corrupted, rejected CID, or its caching Put fails)
     ctx.sample(scns[len(scns) // 3])
     # ---- T: concurrent recorded histories
     rrecs, out, rc = ctx.go_run(binp, test, pkg="blockservice", mode="record", timeout=900,
